@@ -13,7 +13,7 @@
                      string substitutions and its incomplete / invalid distinction.
 
     Bytes are [Z] (0..255); texts are [list Z]; end of list = the terminating NUL. *)
-From AwkV Require Import Base Layout.
+From AwkV Require Import Base Layout Valid.
 
 Definition bytes := list Z.
 
@@ -79,7 +79,7 @@ Definition byte_of (dt : dtype) (d : datum) : res Z :=
 Definition str_of (dt : dtype) (ds : list datum) : res (list ev) :=
   do bs <- mapM (byte_of dt) ds; Ok [EStr bs].
 
-Definition is_chars (p : option akind) : bool :=
+Definition is_charp (p : option akind) : bool :=
   match p with Some AChar | Some AByte => true | _ => false end.
 
 (* block of an n-d NumpyArray with the remaining dimensions [dims] over the flat items [ds]
@@ -110,7 +110,7 @@ Fixpoint chars_of (p : option akind) (c : content) : option (dtype * list datum)
   match c with
   | Par arr _ c' => chars_of (eff p arr) c'
   | Unmasked c' => chars_of None c'
-  | Numpy dt [_] data => if is_chars p then Some (dt, data) else None
+  | Numpy dt [_] data => if is_charp p then Some (dt, data) else None
   | _ => None
   end.
 
@@ -153,7 +153,7 @@ Fixpoint item (o : jopts) (p : option akind) (c : content) (i : Z) {struct c} : 
       | _ :: dims =>
           let sz := prodZ dims in
           do sub <- slice data (i * sz) ((i + 1) * sz);
-          np_block o (is_chars p) dt dims sub
+          np_block o (is_charp p) dt dims sub
       end
   | Empty => Err EOob
   | ListOffset _ offs c' =>
@@ -722,9 +722,21 @@ Fixpoint u64ok (c : content) : bool :=
       (fix all (l : list content) : bool := match l with [] => true | x :: xs => u64ok x && all xs end) cs
   end.
 
+(* uint8 items are bytes (always so in the implementation; the model's buffers hold unbounded integers) *)
+Definition byte_datum (d : datum) : bool := match d with DZ z => is_byte z | _ => false end.
+
+(* the character buffer of a string / bytestring node: a list node whose content is a 1-d uint8
+   NumpyArray tagged char / byte (the shape that validityerror demands) *)
+Definition str_chars (k : akind) (c : content) : option (list datum) :=
+  match list_content c with
+  | Some (Par (Some k') _ (Numpy DUInt8 [_] d)) =>
+      match k, k' with AString, AChar | ABytestring, AByte => Some d | _, _ => None end
+  | _ => None
+  end.
+
 (* fragment of Theorem tojson_value_partial: 1-d numeric leaves, the three list classes, IndexedArray,
-   the option classes, UnmaskedArray, records and tuples, EmptyArray; no parameters (strings), no unions,
-   no n-d NumpyArray *)
+   the option classes, UnmaskedArray, records and tuples (also named: __record__), unions, EmptyArray,
+   strings and bytestrings in the shape validityerror accepts; no n-d NumpyArray, no other __array__ value *)
 Fixpoint frag15 (c : content) : bool :=
   match c with
   | Numpy _ [_] _ => true
@@ -732,7 +744,8 @@ Fixpoint frag15 (c : content) : bool :=
   | Empty => true
   | ListOffset _ _ c' | ListA _ _ _ c' | Regular c' _ _ | Indexed _ _ c' | IndexedOption _ _ c'
   | ByteMasked _ _ c' | BitMasked _ _ _ _ c' | Unmasked c' => frag15 c'
-  | Record cs _ _ =>
+  | Record cs _ _ | Union _ _ _ cs =>
       (fix all (l : list content) : bool := match l with [] => true | x :: xs => frag15 x && all xs end) cs
-  | Union _ _ _ _ | Par _ _ _ => false
+  | Par None _ c' => frag15 c'
+  | Par (Some k) _ c' => match str_chars k c' with Some d => forallb byte_datum d | None => false end
   end.
